@@ -407,7 +407,20 @@ func runC18(c *Ctx) {
 			r.Check(got == exp[k], "R18.6", "enum value syntax "+k, c.Pos(pd.Pos()), "base(s) "+exp[k], "values written as "+k+" are parsed with base(s) "+got+", expected "+exp[k])
 		}
 		pw := callsNamed(pd, "conversion.uintPow")
-		r.Check(len(pw) == 1, "R18.6", "enum value power", c.Pos(pd.Pos()), "x**y evaluated by uintPow(x, y)", "power syntax is not evaluated with uintPow")
+		if len(pw) == 0 && c.FnOpt("pkg/conversion", "uintPow") == nil {
+			// the helper written out in the `**` branch: a multiplication loop over the two parsed operands (its base
+			// case x**0 == 1 is then not decided: constant propagation needs the helper as a function)
+			mulLoop := false
+			for _, in := range allInstrs(pd) {
+				if b, isB := in.(*ssa.BinOp); isB && b.Op == token.MUL && inLoop(b.Block()) && typeStr(b.Type()) == "uint64" {
+					mulLoop = true
+				}
+			}
+			r.Check(mulLoop, "R18.6", "enum value power", c.Pos(pd.Pos()), "x**y evaluated by a multiplication loop written out in processDefinition (base case not decided)", "power syntax is not evaluated (no uintPow, no multiplication loop)")
+			r.Notes = append(r.Notes, "R18.6: uintPow is written out in processDefinition; x**0 == 1 was not decided")
+		} else {
+			r.Check(len(pw) == 1, "R18.6", "enum value power", c.Pos(pd.Pos()), "x**y evaluated by uintPow(x, y)", "power syntax is not evaluated with uintPow")
+		}
 		// base case of the power helper, by conditional constant propagation with the exponent fixed: x**0 == 1
 		// (the usual first flag of a bitmask enum is written 2**0). x**1 == x is not decided this way: in the
 		// `for ; exp != 0; exp >>= 1` form the loop-head phi merges the initial 1 with the product
